@@ -585,6 +585,9 @@ fn load_sheet_rels<R: Read + std::io::Seek>(
         if t.ends_with("comments") {
             let mut target = get_attribute(&rel, "Target")?.to_string();
             // Target="../comments1.xlsx"
+            if !target.is_char_boundary(2) {
+                return Err(XlsxError::Xml(format!("Unexpected Target: {target}")));
+            }
             target.replace_range(..2, v[0]);
             comments = load_comments(archive, &target)?;
         } else if t.ends_with("hyperlink") {
@@ -598,6 +601,9 @@ fn load_sheet_rels<R: Read + std::io::Seek>(
                 p.to_string()
             } else {
                 // Target="../table1.xlsx"
+                if !target.is_char_boundary(2) {
+                    return Err(XlsxError::Xml(format!("Unexpected Target: {target}")));
+                }
                 target.replace_range(..2, v[0]);
                 target
             };
